@@ -3,8 +3,9 @@
 set -e
 WT=$(mktemp -d /tmp/pfst_mut.XXXXXX); rmdir $WT
 git -C /repo worktree add -q --detach $WT HEAD
-trap "git -C /repo worktree remove --force $WT" EXIT
+VO=$(mktemp -d /tmp/pfst_mutout.XXXXXX)
+trap "git -C /repo worktree remove --force $WT; rm -rf $VO" EXIT
 if [ -f "$1" ]; then git -C $WT apply "$1"; else (cd $WT && eval "$1"); fi
 git -C $WT diff --stat | tail -1
 shift
-for P in "$@"; do VERIF_REPO_SRC=$WT/src VERIF_BUDGET=${VERIF_BUDGET:-30} /verif/check $P 2>&1 | cut -c1-500 | grep -v "^\[C" | head -${LINES_OUT:-6}; done
+for P in "$@"; do VERIF_OUT=$VO VERIF_REPO_SRC=$WT/src VERIF_BUDGET=${VERIF_BUDGET:-30} /verif/check $P 2>&1 | cut -c1-500 | grep -v "^\[C" | head -${LINES_OUT:-6}; done
